@@ -67,6 +67,10 @@ pub fn run(ctx: &Ctx, rep: &mut Report) {
         cands.push(target.clone());
         // and the contract's first owner (an owner may appoint itself)
         cands.push(owner.clone());
+        // and the account address sharing its 32 bytes with candidate #0 (a contract address): it
+        // can be made a member, but its membership is not #0's; nobody can sign for it here
+        let twin_idx = cands.len();
+        cands.push(twin_of(&u.env, &cands[0]));
         let stranger = u.principal();
         let mut members: BTreeSet<usize> = BTreeSet::new();
         let mut ever: BTreeSet<usize> = BTreeSet::new();
@@ -169,7 +173,10 @@ pub fn run(ctx: &Ctx, rep: &mut Report) {
                     owner = new_owner;
                 }
                 _ => {
-                    // forwarded call
+                    // forwarded call (not in the name of the address nobody can sign for)
+                    if ci == twin_idx {
+                        continue;
+                    }
                     let is_member = members.contains(&ci);
                     let was_member = ever.contains(&ci);
                     let auth_class = *rng.pick(&["own", "own", "own", "own", "nobody", "stranger", "owner", "own-other-arguments"]);
